@@ -4,7 +4,8 @@ package c04
 
 import (
 	"fmt"
-	"sort"
+	"slices"
+	"strings"
 	"testing"
 
 	"github.com/openacid/low/bmtree"
@@ -25,14 +26,98 @@ type Case struct {
 	To    vk.U64   `json:"to,omitempty"`
 	Class string   `json:"class,omitempty"`
 	Bm    vk.Words `json:"bm,omitempty"`
+	Prev  []int    `json:"prev,omitempty"` // decode: word counts; the same tree is decoded from the bitmap cut / zero-extended to each of them first
+	Syn   *Syn     `json:"syn,omitempty"`  // decode: the bitmap is Syn.build(Mask) instead of Bm (bitmaps of 128 words and more)
+}
+
+// Syn describes a bitmap as a pure function of a few numbers, so that cases with thousands of words stay small on disk
+// and in rapid's draw stream.
+type Syn struct {
+	Seed    vk.U64  `json:"seed"`
+	Style   int     `json:"style"`             // index into synStyles
+	Words   int     `json:"words"`             // length of the bitmap in words (may be shorter or longer than bitmapSize bits)
+	Garbage bool    `json:"garbage,omitempty"` // bits at or beyond bitmapSize hold garbage instead of zeros
+	Set     []int64 `json:"set,omitempty"`     // bit positions forced to 1 afterwards (those inside the bitmap)
+	Clear   []int64 `json:"clear,omitempty"`   // bit positions forced to 0 afterwards
+}
+
+var synStyles = []string{"none", "all", "sparse", "half", "dense", "one", "words3mod4", "wordmix"}
+
+const synMaxWords = 1<<25 + 8
+
+func (s *Syn) build(mask int32) []uint64 {
+	n := min(max(s.Words, 0), synMaxWords)
+	bm := make([]uint64, n)
+	seed := uint64(s.Seed)
+	for i := range bm {
+		r := vk.Mix(seed ^ vk.Mix(uint64(i)))
+		switch s.Style {
+		case 1:
+			bm[i] = ^uint64(0)
+		case 2:
+			bm[i] = r & vk.Mix(r) & vk.Mix(r+1)
+		case 3:
+			bm[i] = r
+		case 4:
+			bm[i] = r | vk.Mix(r)
+		case 6: // element-wise mix: only every fourth word is full, the others are empty
+			if i%4 == 3 {
+				bm[i] = ^uint64(0)
+			}
+		case 7: // element-wise mix: empty, full, random, sparse, single-bit and all-but-one words side by side
+			switch r >> 61 {
+			case 2, 3:
+				bm[i] = ^uint64(0)
+			case 4:
+				bm[i] = vk.Mix(r)
+			case 5:
+				bm[i] = vk.Mix(r) & vk.Mix(r+1) & vk.Mix(r+2)
+			case 6:
+				bm[i] = 1 << (r & 63)
+			case 7:
+				bm[i] = ^(uint64(1) << (r & 63))
+			}
+		}
+	}
+	// bits at or beyond bitmapSize: zeros, or garbage
+	for i := int(mask) / 64; i < n; i++ {
+		lo := int64(i) * 64
+		var valid uint64
+		if lo < int64(mask) {
+			valid = uint64(1)<<uint(int64(mask)-lo) - 1
+		}
+		bm[i] &= valid
+		if s.Garbage {
+			bm[i] |= vk.Mix(seed^0xdead^uint64(i)<<20) &^ valid
+		}
+	}
+	for _, p := range s.Set {
+		if p >= 0 && p < 64*int64(n) {
+			bm[p/64] |= 1 << (uint64(p) % 64)
+		}
+	}
+	for _, p := range s.Clear {
+		if p >= 0 && p < 64*int64(n) {
+			bm[p/64] &^= 1 << (uint64(p) % 64)
+		}
+	}
+	return bm
+}
+
+// bitmap returns the bitmap argument of a decode case.
+func (c Case) bitmap() []uint64 {
+	if c.Syn != nil {
+		return c.Syn.build(c.Mask)
+	}
+	return c.Bm
 }
 
 var checker = &vk.Checker[Case]{
 	ID: "C04",
-	Rule: "AllPaths: level masks of height 0..30 x (from,to) built around a centre with a bounded span in the upper half and lower halves from {0, a valid mask, ffffffff, random}, plus exact hits p, p+-1, from==to, from>to, to=0, from beyond the tree, full ranges for h<=12; " +
-		"oracle = per stored level enumerate candidate prefixes, encode, filter from<=p<to, sort; exact slice equality. Decode: masks of height <= 12 (thorough <= 16) x bitmaps of any content, exact length, truncated, empty, extended with garbage, garbage at bits >= bitmapSize; oracle = pre-order walk with its own index; plus re-encoding through the library's PathToIndex (round trip). " +
-		"Grid: all masks h<=5 (thorough <=7) x all (from,to) from {every path, every path+-1}; Decode on all masks h<=3 x all subsets. Non-trivial (AllPaths): non-empty result and a clip actually taken (a stored node in from's group lies below from, or one in to's group is >= to); (Decode): proper non-empty subset, h>=2. " +
-		"Decode is also given the head of the MAXIMUM bitmap (a 2^25-word array, the largest one int32 positions address) for masks of height <= 8 on three descriptions. " +
+	Rule: "AllPaths: level masks of height 0..30 x (from,to) built around a centre with a span in the upper half that is 0 or log-uniform (every magnitude up to 2^11 equally often, 2^11..2^18 (thorough 2^21) in one case of 24: results of up to 2^19 paths) and lower halves from {0, a valid mask, ffffffff, random}, plus exact hits p, p+-1, from==to, from>to, to=0, from beyond the tree, to's upper half = 2^h-1, 2^h, 2^h+1 (right edge) at every height, full ranges for h<=12 and now and then up to h=17 (thorough 20); " +
+		"oracle = per stored level enumerate candidate prefixes, encode, filter from<=p<to, sort; exact slice equality. Decode: masks of height <= 12 (thorough <= 16) with explicit bitmaps and (one decode case in 8) masks of height 13..18 (thorough ..21; weights fall with the height, Decode always walks the whole tree) with bitmaps given by a description (density styles incl. word-wise mixes of empty/full/random words, forced/cleared bits at the last node, at powers of two and at the ends) x any content, exact length, truncated (by 1..3 words or anywhere), empty (nil or empty non-nil), extended with garbage, garbage at bits >= bitmapSize; for a third (big: a fifth) of the cases the same tree is first decoded from the bitmap cut or zero-extended to other lengths (each result checked), so that a result depending on the previous call shows; oracle = pre-order walk with its own index; plus re-encoding through the library's PathToIndex (round trip; for height >= 13 the second Decode is skipped when the re-encoded bitmap equals the argument word for word). " +
+		"Grid: all masks h<=5 (thorough <=7) x all (from,to) from {every path, every path+-1}; Decode on all masks h<=3 x all subsets; a deterministic size sweep: Decode at every height 4..19 (thorough ..22) on masks 2^h, 2^h+1, 2^(h+1)-1 and two arbitrary ones x {half of the nodes + the last one, all, only the last one, word mix extended with garbage, dense truncated} (fewer combinations from height 15 on), AllPaths on ranges of 2^12..2^17 (thorough 2^20) search values ending at the right edge for heights 13..30; in the process that varies GOMAXPROCS one of the Decode cases per height 13..16 (thorough ..19; two at height 16) and some of the ranges are evaluated under every setting. Non-trivial (AllPaths): non-empty result and a clip actually taken (a stored node in from's group lies below from, or one in to's group is >= to); (Decode): proper non-empty subset, h>=2. " +
+		"Decode is also given the head of the MAXIMUM bitmap (a 2^25-word array, the largest one int32 positions address) for masks of height <= 8 on three descriptions and for four masks of height 12..18. " +
 		"Grid cases distinct by construction; rapid cases hashed only outside the grid domain.",
 	Check:    check,
 	Classify: classify,
@@ -49,6 +134,14 @@ func gridH() int { return vk.Pick(5, 7) }
 
 // wantAllPaths is the oracle of AllPaths; it also reports whether a clip was taken.
 func wantAllPaths(mask int32, from, to uint64) (out []uint64, clipped bool) {
+	if apMemo.ok && apMemo.mask == mask && apMemo.from == from && apMemo.to == to {
+		return apMemo.out, apMemo.clipped
+	}
+	defer func() {
+		if len(out) >= 1<<10 { // (the classifier and the check ask for the same case one after the other)
+			apMemo.ok, apMemo.mask, apMemo.from, apMemo.to, apMemo.out, apMemo.clipped = true, mask, from, to, out, clipped
+		}
+	}()
 	tr := model.NewTree(mask)
 	h := tr.H
 	fu, tu := from>>32, to>>32
@@ -68,8 +161,9 @@ func wantAllPaths(mask int32, from, to uint64) (out []uint64, clipped bool) {
 		if hi > maxB {
 			hi = maxB
 		}
+		ones := (uint64(1)<<uint(l) - 1) << sh // a run of l ones, left-aligned in h bits (== the low half of model.PathWord(b, l, h))
 		for b := lo; b <= hi; b++ {
-			p := model.PathWord(b, l, h)
+			p := b<<sh<<32 | ones
 			if p >= from && p < to {
 				out = append(out, p)
 			}
@@ -78,12 +172,25 @@ func wantAllPaths(mask int32, from, to uint64) (out []uint64, clipped bool) {
 			}
 		}
 	}
-	sort.Slice(out, func(i, j int) bool { return out[i] < out[j] })
+	slices.Sort(out)
 	return out, clipped
 }
 
 // wantDecode is the oracle of Decode: pre-order walk, own index, own bit test.
 func wantDecode(mask int32, bm []uint64) (out []uint64, stored int) {
+	// (the classifier and the check ask for the same case one after the other: the last answer is kept)
+	if memo.ok && memo.mask == mask && eq(memo.bm, bm) {
+		return memo.out, memo.stored
+	}
+	out, stored = wantDecodeWalk(mask, bm)
+	if mask >= 1<<10 {
+		memo.ok, memo.mask, memo.out, memo.stored = true, mask, out, stored
+		memo.bm = append(memo.bm[:0], bm...)
+	}
+	return out, stored
+}
+
+func wantDecodeWalk(mask int32, bm []uint64) (out []uint64, stored int) {
 	tr := model.NewTree(mask)
 	tr.Walk(func(prefix uint64, l int, st bool, index int64) {
 		if !st {
@@ -95,6 +202,22 @@ func wantDecode(mask int32, bm []uint64) (out []uint64, stored int) {
 		}
 	})
 	return out, stored
+}
+
+var apMemo struct {
+	ok       bool
+	mask     int32
+	from, to uint64
+	out      []uint64
+	clipped  bool
+}
+
+var memo struct {
+	ok     bool
+	mask   int32
+	bm     []uint64
+	out    []uint64
+	stored int
 }
 
 func eq(a, b []uint64) bool {
@@ -114,6 +237,13 @@ func show(xs []uint64) string {
 		return fmt.Sprintf("%#x ... (%d paths)", xs[:12], len(xs))
 	}
 	return fmt.Sprintf("%#x", xs)
+}
+
+func showWords(bm []uint64) string {
+	if len(bm) > 40 {
+		return fmt.Sprintf("%#x ... %#x (%d words)", bm[:8], bm[len(bm)-4:], len(bm))
+	}
+	return fmt.Sprintf("%#x", bm)
 }
 
 func firstDiff(a, b []uint64) string {
@@ -144,20 +274,22 @@ func checkAllPaths(mask int32, from, to uint64) *vk.Failure {
 
 var scratch vk.Scratch
 
-func checkDecode(mask int32, bm []uint64) *vk.Failure {
-	want, _ := wantDecode(mask, bm)
-	keep := bm
-	bm = append(make([]uint64, 0, len(keep)), keep...) // the code under test gets a private copy ...
-	reused := scratch.Reuse(vk.SumU64(keep) + uint64(mask))
+// decodeCall hands a private copy of the bitmap to Decode and compares the result with want.
+func decodeCall(mask int32, keep, want []uint64, what string) *vk.Failure {
+	sum := vk.SumU64(keep) + uint64(mask)
+	bm := append(make([]uint64, 0, len(keep)), keep...) // the code under test gets a private copy ...
+	reused := scratch.Reuse(sum)
 	if reused {
 		bm = scratch.U64(keep) // ... or a reused buffer (same address as earlier calls) with guarded spare capacity
+	} else if len(keep) == 0 {
+		bm = vk.ShapeU64(keep, sum) // ... an empty bitmap as nil or as an empty non-nil slice
 	}
 	var got []uint64
-	if f := vk.Try(fmt.Sprintf("Decode(%#x, %d words)", mask, len(bm)), func() { got = bmtree.Decode(mask, bm) }); f != nil {
+	if f := vk.Try(fmt.Sprintf("Decode(%#x, %d words)%s", mask, len(bm), what), func() { got = bmtree.Decode(mask, bm) }); f != nil {
 		return f
 	}
 	if !eq(got, want) {
-		return vk.Failf("decode", "Decode(mask=%#x, bm=%#x): %s; got %s want %s", mask, bm, firstDiff(got, want), show(got), show(want))
+		return vk.Failf("decode", "Decode(mask=%#x, bm=%s)%s: %s; got %s want %s", mask, showWords(bm), what, firstDiff(got, want), show(got), show(want))
 	}
 	if !eq(bm, keep) {
 		return vk.Failf("decode-mutates", "Decode modified its bitmap argument")
@@ -167,21 +299,64 @@ func checkDecode(mask int32, bm []uint64) *vk.Failure {
 			return vk.Failf("argument-spare-capacity-written", "Decode: %s", msg)
 		}
 	}
-	// round trip: encode the decoded set through the library's own PathToIndex
-	enc := make([]uint64, (int(mask)+63)/64)
-	var f *vk.Failure
-	for _, p := range want {
-		var idx int32
-		if f = vk.Try("PathToIndex", func() { idx = bmtree.PathToIndex(mask, p) }); f != nil {
+	return nil
+}
+
+// resized returns the first k words of bm, zero-extended when k > len(bm).
+func resized(bm []uint64, k int) []uint64 {
+	k = min(max(k, 0), len(bm)+8)
+	out := make([]uint64, k)
+	copy(out, bm)
+	return out
+}
+
+// checkDecode: prev lists word counts; the same tree is first decoded from the bitmap cut (or zero-extended) to each of
+// them, every result being checked, and then from bm itself: what Decode returns must not depend on the calls before.
+func checkDecode(mask int32, bm []uint64, prev []int) *vk.Failure {
+	want, _ := wantDecode(mask, bm)
+	for i, k := range prev {
+		if i >= 4 {
+			break
+		}
+		pbm := resized(bm, k)
+		pwant, _ := wantDecodeWalk(mask, pbm)
+		if f := decodeCall(mask, pbm, pwant, fmt.Sprintf(" (call %d of the case, the bitmap cut to %d words)", i+1, k)); f != nil {
 			return f
 		}
-		if idx < 0 || int(idx) >= 64*len(enc) {
-			return vk.Failf("roundtrip-index-range", "PathToIndex(%#x,%#x) = %d outside the bitmap", mask, p, idx)
+	}
+	keep := bm
+	what := ""
+	if len(prev) > 0 {
+		what = fmt.Sprintf(" (after Decode of the same tree from the first %v words)", prev)
+	}
+	if f := decodeCall(mask, keep, want, what); f != nil {
+		return f
+	}
+	// round trip: encode the decoded set through the library's own PathToIndex
+	enc := make([]uint64, (int(mask)+63)/64)
+	var bad *vk.Failure
+	if f := vk.Try("PathToIndex", func() {
+		for _, p := range want {
+			idx := bmtree.PathToIndex(mask, p)
+			if idx < 0 || int(idx) >= 64*len(enc) {
+				bad = vk.Failf("roundtrip-index-range", "PathToIndex(%#x,%#x) = %d outside the bitmap", mask, p, idx)
+				return
+			}
+			enc[idx/64] |= 1 << (uint(idx) % 64)
 		}
-		enc[idx/64] |= 1 << (uint(idx) % 64)
+	}); f != nil {
+		return f
+	}
+	if bad != nil {
+		return bad
+	}
+	if mask >= 1<<13 && eq(enc, keep) {
+		// the re-encoded bitmap IS the argument just decoded (exact length, nothing beyond bitmapSize): for the large
+		// trees the identical second call is saved
+		return nil
 	}
 	var got2 []uint64
-	if f = vk.Try("Decode(round trip)", func() { got2 = bmtree.Decode(mask, enc) }); f != nil {
+	if f := vk.Try("Decode(round trip)", func() { got2 = bmtree.Decode(mask, enc) }); f != nil {
 		return f
 	}
 	if !eq(got2, want) {
@@ -190,29 +365,31 @@ func checkDecode(mask int32, bm []uint64) *vk.Failure {
 	return nil
 }
 
-// maxHead is a private copy of the first words of the maximum bitmap's description (what a mask < 2^9 can address).
-func maxHead(v int) []uint64 {
+// maxHead is a private copy of the first words of the maximum bitmap's description (what the mask can address).
+func maxHead(v int, mask int32) []uint64 {
 	gen.UseMax(v)
-	h := make([]uint64, 9)
+	h := make([]uint64, max((int(mask)+63)/64+1, 9))
 	for k := range h {
 		h[k] = gen.MaxWord(k)
 	}
 	return h
 }
 
+const maxDecodeMask = 1 << 19
+
 // checkMaxDecode: a node bitmap that is the head of a huge shared bitmap (2^25 words, the largest one int32 positions address).
 func checkMaxDecode(v int, mask int32) *vk.Failure {
-	if v < 0 || v >= gen.MaxVariants || mask < 1 || mask >= 1<<9 {
+	if v < 0 || v >= gen.MaxVariants || mask < 1 || mask >= maxDecodeMask {
 		return nil
 	}
-	want, _ := wantDecode(mask, maxHead(v))
+	want, _ := wantDecode(mask, maxHead(v, mask))
 	bm := gen.UseMax(v)
 	var got []uint64
 	if f := vk.Try(fmt.Sprintf("Decode(%#x, 2^25 words (description %d))", mask, v), func() { got = bmtree.Decode(mask, bm) }); f != nil {
 		return f
 	}
 	if !eq(got, want) {
-		return vk.Failf("decode", "Decode(mask=%#x, bm = 2^25-word bitmap (description %d) starting %#x): %s; got %s want %s", mask, v, maxHead(v)[:3], firstDiff(got, want), show(got), show(want))
+		return vk.Failf("decode", "Decode(mask=%#x, bm = 2^25-word bitmap (description %d) starting %#x): %s; got %s want %s", mask, v, maxHead(v, 1)[:3], firstDiff(got, want), show(got), show(want))
 	}
 	if k, bad := gen.MaxBitmapDamage(); bad {
 		return vk.Failf("decode-mutates", "Decode modified word %d of its 2^25-word bitmap argument", k)
@@ -225,14 +402,30 @@ func check(c Case) *vk.Failure {
 		return checkMaxDecode(c.Max, c.Mask)
 	}
 	if c.Op == "decode" {
-		return checkDecode(c.Mask, c.Bm)
+		if c.Mask < 1 {
+			return nil
+		}
+		return checkDecode(c.Mask, c.bitmap(), c.Prev)
 	}
 	return checkAllPaths(c.Mask, uint64(c.From), uint64(c.To))
 }
 
 func classify(c Case) (bool, []string) {
 	tr := model.NewTree(c.Mask)
-	labels := []string{"op:" + c.Op, "class:" + c.Class}
+	// (the modifiers of the description-built bitmaps and the call history are labels of their own, not part of the class name)
+	cls := c.Class
+	var mods []string
+	if k := strings.TrimSuffix(cls, "+after-other-length"); k != cls {
+		cls, mods = k, append(mods, "decode-after-other-length")
+	}
+	if strings.HasPrefix(cls, "big-") {
+		parts := strings.Split(cls, "+")
+		cls = parts[0]
+		for _, m := range parts[1:] {
+			mods = append(mods, "big:"+m)
+		}
+	}
+	labels := append([]string{"op:" + c.Op, "class:" + cls}, mods...)
 	switch {
 	case tr.H <= 7:
 		labels = append(labels, "h:0-7")
@@ -242,14 +435,32 @@ func classify(c Case) (bool, []string) {
 		labels = append(labels, "h:17-30")
 	}
 	if c.Op == "maxdecode" {
-		want, stored := wantDecode(c.Mask, maxHead(c.Max%gen.MaxVariants))
+		if c.Max < 0 || c.Max >= gen.MaxVariants || c.Mask < 1 || c.Mask >= maxDecodeMask {
+			return false, labels
+		}
+		want, stored := wantDecode(c.Mask, maxHead(c.Max, c.Mask))
 		if len(want) > 0 && len(want) < stored {
 			labels = append(labels, "subset:proper")
 		}
 		return tr.H >= 2 && len(want) > 0 && len(want) < stored, labels
 	}
 	if c.Op == "decode" {
-		want, stored := wantDecode(c.Mask, c.Bm)
+		if c.Mask < 1 {
+			return false, labels
+		}
+		bm := c.bitmap()
+		want, stored := wantDecode(c.Mask, bm)
+		switch {
+		case tr.H >= 18:
+			labels = append(labels, "decode-h:18+")
+		case tr.H >= 16:
+			labels = append(labels, "decode-h:16-17")
+		case tr.H >= 13:
+			labels = append(labels, "decode-h:13-15")
+		}
+		if c.Mask > 1 && int64(c.Mask-1) < 64*int64(len(bm)) && bm[(c.Mask-1)/64]>>(uint(c.Mask-1)%64)&1 == 1 {
+			labels = append(labels, "last-node-set")
+		}
 		switch {
 		case len(want) == 0:
 			labels = append(labels, "subset:empty")
@@ -260,9 +471,9 @@ func classify(c Case) (bool, []string) {
 		}
 		need := (int(c.Mask) + 63) / 64
 		switch {
-		case len(c.Bm) < need:
+		case len(bm) < need:
 			labels = append(labels, "bm:short")
-		case len(c.Bm) > need:
+		case len(bm) > need:
 			labels = append(labels, "bm:long")
 		default:
 			labels = append(labels, "bm:exact")
@@ -274,6 +485,14 @@ func classify(c Case) (bool, []string) {
 		labels = append(labels, "result:empty")
 	} else {
 		labels = append(labels, "result:nonempty")
+	}
+	switch {
+	case len(want) >= 1<<16:
+		labels = append(labels, "result:>=2^16-paths")
+	case len(want) >= 1<<13:
+		labels = append(labels, "result:2^13..2^16-paths")
+	case len(want) >= 1<<10:
+		labels = append(labels, "result:2^10..2^13-paths")
 	}
 	if clipped {
 		labels = append(labels, "clip-taken")
@@ -290,6 +509,11 @@ func genMask(t *rapid.T, maxH int) int32 {
 	} else {
 		h = gen.Uniform(t, maxH+1, "h")
 	}
+	return maskAt(t, h)
+}
+
+// maskAt draws a level mask of exactly height h.
+func maskAt(t *rapid.T, h int) int32 {
 	top := int32(1) << uint(h)
 	low := int32(gen.U64(t, "low")) & (top - 1)
 	switch gen.Uniform(t, 6, "mclass") {
@@ -305,6 +529,34 @@ func genMask(t *rapid.T, maxH int) int32 {
 		return top | ((low | int32(gen.U64(t, "low2"))) & (top - 1))
 	}
 	return top | low
+}
+
+// spanBig is the exponent of the largest span (count of full-length search values a range covers) the ordinary
+// classes draw; a range over a full mask then holds about 2^(spanBig+2) paths.
+func spanBig() int {
+	if fuzzSizes {
+		return 13
+	}
+	return vk.Pick(17, 20)
+}
+
+// fuzzSizes: the native fuzz target keeps to moderate sizes (Decode up to height 16, ranges of up to 2^14 search values) in
+// both tiers: the fuzzer multiplies whatever is slow (it mutates and minimises the inputs that reached new code, and those are
+// the large ones), and sixteen workers holding trees of 2^22 nodes each are neither fast nor safe on a shared machine.
+var fuzzSizes bool
+
+// genSpan draws the width of a range in full-length search values: 0 or log-uniform, every magnitude up to
+// 2^11 about equally often, the magnitudes 2^11 .. 2^(spanBig+1) in one case of 24 (their results have tens of
+// thousands to a million paths).
+func genSpan(t *rapid.T, label string) uint64 {
+	k := gen.Uniform(t, 12, label+".k") - 1 // -1: span 0
+	if gen.Chance(t, 1, 24, label+".big") {
+		k = 11 + gen.Uniform(t, spanBig()-10, label+".kbig")
+	}
+	if k < 0 {
+		return 0
+	}
+	return uint64(1)<<uint(k) | gen.U64(t, label+".r")&(uint64(1)<<uint(k)-1)
 }
 
 func lowHalf(t *rapid.T, h int, label string) uint64 {
@@ -324,7 +576,6 @@ func genAllPaths(t *rapid.T) Case {
 	mask := genMask(t, 30)
 	tr := model.NewTree(mask)
 	h := tr.H
-	spanMax := uint64(vk.Pick(1<<10, 1<<14))
 	c := Case{Op: "allpaths", Mask: mask}
 	nodeWord := func(label string) uint64 {
 		l := gen.Uniform(t, h+1, label+".l")
@@ -334,13 +585,14 @@ func genAllPaths(t *rapid.T) Case {
 		}
 		return model.PathWord(p, l, h)
 	}
-	switch gen.Uniform(t, 10, "class") {
+	edge := uint64(1) << uint(h) // one past the last full-length search value
+	switch gen.Uniform(t, 11, "class") {
 	case 0: // exact hits around real paths
 		c.Class = "exact-hits"
 		p := nodeWord("p")
 		d := []uint64{0, 1, ^uint64(0)}[gen.Uniform(t, 3, "d1")]
 		c.From = vk.U64(p + d)
-		span := gen.U64(t, "span") % spanMax
+		span := genSpan(t, "span")
 		q := (p>>32 + span) << 32
 		c.To = vk.U64(q | lowHalf(t, h, "to"))
 	case 1:
@@ -348,7 +600,7 @@ func genAllPaths(t *rapid.T) Case {
 		p := nodeWord("p")
 		d := []uint64{0, 1, ^uint64(0)}[gen.Uniform(t, 3, "d1")]
 		c.To = vk.U64(p + d)
-		span := gen.U64(t, "span") % spanMax
+		span := genSpan(t, "span")
 		fu := p >> 32
 		if fu >= span {
 			fu -= span
@@ -369,20 +621,27 @@ func genAllPaths(t *rapid.T) Case {
 		c.From, c.To = vk.U64(nodeWord("p")), 0
 	case 5:
 		c.Class = "beyond-tree"
-		c.From = vk.U64((uint64(1)<<uint(h)+gen.U64(t, "over")%5)<<32 | lowHalf(t, h, "from"))
+		c.From = vk.U64((edge+gen.U64(t, "over")%5)<<32 | lowHalf(t, h, "from"))
 		c.To = vk.U64(gen.U64(t, "to") | 1<<63)
 	case 6:
-		if h <= 12 {
+		// the whole tree: always for h <= 12, now and then up to the height whose 2^(h+1) nodes the tier affords
+		if h <= 12 || (h <= spanBig() && gen.Chance(t, 1, 6, "fulltall")) {
 			c.Class = "full-range"
 			c.From = 0
-			c.To = vk.U64([]uint64{1 << 63, ^uint64(0), uint64(1) << uint(32+h), uint64(1)<<uint(32+h) - 1}[gen.Uniform(t, 4, "fullto")])
+			c.To = vk.U64([]uint64{1 << 63, ^uint64(0), edge << 32, edge<<32 - 1, edge<<32 | lowHalf(t, h, "to"), (edge+1)<<32 | lowHalf(t, h, "to")}[gen.Uniform(t, 6, "fullto")])
 			break
 		}
 		fallthrough
+	case 7: // to's upper half is the last search value, one past it (2^h exactly) or two past it, with any lower half
+		c.Class = "right-edge"
+		tu := edge - 1 + uint64(gen.Uniform(t, 3, "past"))
+		c.To = vk.U64(tu<<32 | lowHalf(t, h, "to"))
+		span := genSpan(t, "span")
+		c.From = vk.U64((tu-min(span, tu))<<32 | lowHalf(t, h, "from"))
 	default:
 		c.Class = "window"
-		centre := gen.U64(t, "centre") % (uint64(1) << uint(h))
-		span := gen.U64(t, "span") % spanMax
+		centre := gen.U64(t, "centre") % edge
+		span := genSpan(t, "span")
 		if gen.Chance(t, 1, 2, "tiny") {
 			span %= 4
 		}
@@ -391,18 +650,141 @@ func genAllPaths(t *rapid.T) Case {
 	}
 	// keep the scanned span bounded whatever the class produced (e.g. p-1 wrapping to 2^64-1):
 	// the function loops over every full-length prefix between from>>32 and min(to>>32, 2^h).
-	if h > 12 {
-		end := min(uint64(c.To)>>32+1, uint64(1)<<uint(h))
+	if h > 12 && c.Class != "full-range" {
+		end := min(uint64(c.To)>>32+1, edge)
 		start := uint64(c.From) >> 32
-		if end > start && end-start > 2*spanMax {
-			c.From = vk.U64((end-2*spanMax)<<32 | uint64(c.From)&0xffffffff)
+		if limit := uint64(1) << uint(spanBig()+1); end > start && end-start > limit {
+			// (a pure function of the case picks the magnitude that is left: 2^10 .. 2^spanBig)
+			keepK := 10 + vk.Mix(uint64(c.From)^uint64(c.To)*31^uint64(mask))%uint64(spanBig()-9)
+			c.From = vk.U64((end-uint64(1)<<keepK)<<32 | uint64(c.From)&0xffffffff)
 			c.Class += "+span-clamped"
 		}
 	}
 	return c
 }
 
+// decodeHeights: the heights above 12 at which rapid calls Decode, with weights. Decode always enumerates the whole tree
+// (2^h .. 2^(h+1) paths), so the cost doubles per level; every height up to the largest one is met by several cases.
+func decodeHeights() (hs []int, weights []int) {
+	if fuzzSizes {
+		return []int{13, 14, 15, 16}, []int{4, 3, 2, 1}
+	}
+	if vk.Thorough() {
+		return []int{13, 14, 15, 16, 17, 18, 19, 20, 21}, []int{4, 4, 4, 4, 3, 3, 2, 1, 1}
+	}
+	return []int{13, 14, 15, 16, 17, 18}, []int{5, 5, 4, 5, 2, 1}
+}
+
+// edgeBit draws a bit position in [0, mask) that favours the ends and the powers of two.
+func edgeBit(t *rapid.T, mask int32, label string) int64 {
+	m := int64(mask)
+	switch gen.Uniform(t, 6, label+".class") {
+	case 0, 1:
+		return m - 1
+	case 2:
+		return m - 1 - int64(gen.Uniform(t, 70, label+".back"))%m
+	case 3:
+		k := gen.Uniform(t, 31, label+".k")
+		return (int64(1)<<uint(k) - int64(gen.Uniform(t, 2, label+".m1"))) % m
+	case 4:
+		return 0
+	}
+	return int64(gen.U64(t, label+".u") % uint64(m))
+}
+
+// genPrev draws the word counts of the calls that precede the call under test on the same tree (see checkDecode).
+func genPrev(t *rapid.T, need, n int) []int {
+	var prev []int
+	for i := 0; i < n; i++ {
+		var k int
+		switch gen.Uniform(t, 6, "prev.class") {
+		case 0:
+			k = need - 1 - gen.Uniform(t, 3, "prev.cut")
+		case 1:
+			k = 1
+		case 2:
+			k = need / 2
+		case 3:
+			k = need + gen.Uniform(t, 2, "prev.ext")
+		default:
+			k = gen.Uniform(t, need+1, "prev.any")
+		}
+		prev = append(prev, max(k, 0))
+	}
+	return prev
+}
+
+// genDecodeBig: trees of height 13 and more, the bitmap given by a description (Syn).
+func genDecodeBig(t *rapid.T) Case {
+	hs, ws := decodeHeights()
+	total := 0
+	for _, w := range ws {
+		total += w
+	}
+	pick, h := gen.Uniform(t, total, "bigh"), 0
+	for i, w := range ws {
+		if pick < w {
+			h = hs[i]
+			break
+		}
+		pick -= w
+	}
+	mask := maskAt(t, h)
+	need := (int(mask) + 63) / 64
+	syn := &Syn{Seed: vk.U64(gen.U64(t, "synseed")), Style: gen.Uniform(t, len(synStyles), "synstyle"), Words: need}
+	c := Case{Op: "decode", Mask: mask, Syn: syn}
+	c.Class = "big-" + synStyles[syn.Style]
+	if syn.Style == 5 { // exactly one node
+		syn.Set = []int64{edgeBit(t, mask, "one")}
+	} else {
+		switch gen.Uniform(t, 5, "edge") {
+		case 0: // the last node of the pre-order (the right-most leaf)
+			syn.Set = []int64{int64(mask) - 1}
+			c.Class += "+last-set"
+		case 1:
+			syn.Clear = []int64{int64(mask) - 1}
+			c.Class += "+last-clear"
+		case 2:
+			for i, n := 0, 1+gen.Uniform(t, 4, "nedge"); i < n; i++ {
+				if gen.Chance(t, 1, 2, "setclear") {
+					syn.Set = append(syn.Set, edgeBit(t, mask, "e"))
+				} else {
+					syn.Clear = append(syn.Clear, edgeBit(t, mask, "e"))
+				}
+			}
+			c.Class += "+edges"
+		}
+	}
+	if int(mask)%64 != 0 && gen.Chance(t, 1, 2, "garbage-tail") {
+		syn.Garbage = true
+		c.Class += "+garbage-tail"
+	}
+	switch gen.Uniform(t, 10, "lenclass") {
+	case 0:
+		syn.Words = need - 1 - gen.Uniform(t, 3, "cut")
+		c.Class += "+truncated"
+	case 1: // cut anywhere
+		syn.Words = gen.Uniform(t, need, "cutany")
+		c.Class += "+truncated"
+	case 2:
+		syn.Words = 0
+		c.Class += "+empty"
+	case 3, 4:
+		syn.Words = need + 1 + gen.Uniform(t, 3, "ext")
+		syn.Garbage = true
+		c.Class += "+extended"
+	}
+	if gen.Chance(t, 1, 5, "seq") {
+		c.Prev = genPrev(t, need, 1)
+		c.Class += "+after-other-length"
+	}
+	return c
+}
+
 func genDecode(t *rapid.T) Case {
+	if gen.Chance(t, 1, 8, "big") {
+		return genDecodeBig(t)
+	}
 	mask := genMask(t, vk.Pick(12, 16))
 	need := (int(mask) + 63) / 64
 	bm := make(vk.Words, need)
@@ -446,6 +828,10 @@ func genDecode(t *rapid.T) Case {
 		c.Class += "+extended"
 	}
 	c.Bm = bm
+	if need > 1 && gen.Chance(t, 1, 3, "seq") {
+		c.Prev = genPrev(t, need, 1+gen.Uniform(t, 2, "nprev"))
+		c.Class += "+after-other-length"
+	}
 	return c
 }
 
@@ -460,7 +846,10 @@ func TestRegress(t *testing.T) { checker.Regress(t) }
 
 func TestProp(t *testing.T) { checker.Prop(t, genCase) }
 
-func FuzzProp(f *testing.F) { checker.Fuzz(f, genAllPaths) }
+func FuzzProp(f *testing.F) {
+	fuzzSizes = true
+	checker.Fuzz(f, genCase)
+}
 
 func TestGrid(t *testing.T) {
 	vk.SetPhase("grid")
@@ -512,18 +901,108 @@ func TestGrid(t *testing.T) {
 				if sub != 0 && sub != 1<<uint(mask)-1 && model.NewTree(mask).H >= 2 && len(bm) > 0 {
 					nontriv++
 				}
-				if f := checkDecode(mask, bm); f != nil {
+				if f := checkDecode(mask, bm, nil); f != nil {
 					fail(Case{Op: "decode", Mask: mask, Bm: bm, Class: "grid"}, f)
 				}
 			}
 		}
 	}
 	vk.CountConstructed(evals, nontriv, "grid")
+	sizeSweep(t, shard, nshards)
 	if shard == 0 {
 		vk.AddSample(map[string]any{"grid": fmt.Sprintf("all masks h<=%d x all (from,to) in {path, path+1, path-1}^2; Decode: all masks h<=3 x all subsets x 3 bitmap shapes", maxH),
 			"example": map[string]any{"mask": "0x2d", "from": "0x400000030", "to": "0x1800000038", "allpaths": fmt.Sprintf("%#x", bmtree.AllPaths(0x2d, 0x400000030, 0x1800000038))}})
 	}
 	vk.MarkExhaustive(fmt.Sprintf("AllPaths: all masks h<=%d x all (from,to) from {path, path+-1}; Decode: all masks h<=3 x all subsets", maxH))
+}
+
+// sizeSweep: deterministic cases at every height between the exhaustive region and the largest inputs of the tier.
+// Decode: masks 2^h (leaves only), 2^h+1, 2^(h+1)-1 (every level) and two arbitrary ones of each height x bitmaps that
+// are non-trivial AT that size (the last node set, only the last node, all nodes, a truncated and an extended one).
+// AllPaths: ranges ending at the right edge of the tree that hold 2^k .. 2^(k+2) paths. In the process that varies GOMAXPROCS
+// one or two Decode cases per height from 13 on and the ranges of up to 2^16 search values are evaluated under every setting.
+func sizeSweep(t *testing.T, shard, nshards int) {
+	n := 0
+	run := func(c Case, sweep bool) {
+		n++
+		if n%nshards != shard {
+			return
+		}
+		if sweep && vk.ProcsVaried() {
+			vk.ProcsSweep(func() { checker.Run(t, c) })
+			return
+		}
+		checker.Run(t, c)
+	}
+	maxH := vk.Pick(19, 22)
+	sweepH := vk.Pick(16, 19) // largest height evaluated under every GOMAXPROCS setting
+	for h := 4; h <= maxH; h++ {
+		if vk.ProcsVaried() && h > sweepH {
+			break // (the ordinary process has them)
+		}
+		top := int32(1) << uint(h)
+		r1, r2 := int32(vk.Mix(uint64(h))), int32(vk.Mix(uint64(h)+100))
+		masks := []int32{top | (top - 1), top | r1&(top-1), top, top | 1, top | r1&r2&(top-1)}
+		type bmk struct {
+			name string
+			syn  func(mask int32) *Syn
+		}
+		need := func(mask int32) int { return (int(mask) + 63) / 64 }
+		seed := vk.U64(vk.Mix(uint64(h) + 7))
+		bms := []bmk{
+			{"half+last-set", func(m int32) *Syn { return &Syn{Seed: seed, Style: 3, Words: need(m), Set: []int64{int64(m) - 1}} }},
+			{"all", func(m int32) *Syn { return &Syn{Seed: seed, Style: 1, Words: need(m)} }},
+			{"one(last)", func(m int32) *Syn { return &Syn{Seed: seed, Style: 0, Words: need(m), Set: []int64{int64(m) - 1}} }},
+			{"wordmix+extended", func(m int32) *Syn {
+				return &Syn{Seed: seed, Style: 7, Words: need(m) + 2, Garbage: true, Set: []int64{int64(m) - 1, int64(m) / 2}}
+			}},
+			{"dense+truncated", func(m int32) *Syn { return &Syn{Seed: seed, Style: 4, Words: need(m)/2 + 1, Set: []int64{0}} }},
+		}
+		var pairs [][2]int // (mask, bitmap) combinations affordable at this height
+		switch {
+		case h >= 21:
+			pairs = [][2]int{{1, 0}}
+		case h >= 19:
+			pairs = vk.Pick([][2]int{{1, 0}}, [][2]int{{1, 0}, {0, 1}})
+		case h >= 17:
+			pairs = [][2]int{{1, 0}, {0, 1}}
+		case h >= 15:
+			pairs = [][2]int{{1, 0}, {0, 1}, {2, 2}, {3, 0}, {1, 3}, {4, 4}}
+		default:
+			for i := range masks {
+				for j := range bms {
+					pairs = append(pairs, [2]int{i, j})
+				}
+			}
+		}
+		for _, ij := range pairs {
+			m, b := masks[ij[0]], bms[ij[1]]
+			// an arbitrary mask x half of the nodes and the last one / every level x every node: under every scheduler width
+			sweep := h >= 13 && h <= sweepH && (ij == [2]int{1, 0} || (ij == [2]int{0, 1} && h == 16))
+			if vk.ProcsVaried() && !sweep {
+				continue // (the ordinary process has them)
+			}
+			run(Case{Op: "decode", Mask: m, Syn: b.syn(m), Class: "sizes-" + b.name}, sweep)
+		}
+	}
+	// AllPaths: (height, log2 of the span) pairs; the range ends at, one before or one past the right edge
+	for i, hk := range [][2]int{{13, 13}, {14, 12}, {15, 15}, {16, 14}, {17, 17}, {18, 13}, {20, 16}, {22, 15}, {25, 17}, {28, 14}, {30, 16}, {30, 17}, {24, 19}, {30, 20}} {
+		h, k := hk[0], hk[1]
+		if k > spanBig() {
+			continue
+		}
+		top := int32(1) << uint(h)
+		mask := top | (top - 1)
+		if i%3 == 1 {
+			mask = top | int32(vk.Mix(uint64(i)))&(top-1)
+		}
+		edge := uint64(1) << uint(h)
+		tu := edge - 1 + uint64(i%3)
+		span := uint64(1)<<uint(k) + vk.Mix(uint64(i)+9)%(uint64(1)<<uint(k))
+		from := (tu-min(span, tu))<<32 | []uint64{0, 0xffffffff, model.PathWord(0, h/2, h) & 0xffffffff}[i%3]
+		to := tu<<32 | []uint64{0xffffffff, 0, model.PathWord(0, h, h) & 0xffffffff}[i%3]
+		run(Case{Op: "allpaths", Mask: mask, From: vk.U64(from), To: vk.U64(to), Class: "sizes-right-edge"}, k <= 15 && i%3 != 1)
+	}
 }
 
 // TestLast runs at the very end of the process: huge inputs (the maximum bitmap / string) and the regression cases of that size come last, so that
@@ -538,7 +1017,12 @@ func TestLast(t *testing.T) {
 					checker.Run(t, Case{Op: "maxdecode", Max: v, Mask: mask, Class: "grid-maximum"})
 				}
 			}
+			// taller trees on the same array (description 0 has ones in word 4097, which a tree of height 18 reaches)
+			for _, mask := range []int32{0x1fff, 1<<14 | 0x1234, 1<<16 | 0xff0f} {
+				checker.Run(t, Case{Op: "maxdecode", Max: v, Mask: mask, Class: "grid-maximum-tall"})
+			}
 		}
+		checker.Run(t, Case{Op: "maxdecode", Max: 0, Mask: 1<<18 | 0x2aaaa, Class: "grid-maximum-tall"})
 	}
 	checker.RegressLast(t)
 }
